@@ -369,7 +369,8 @@ for rep in (1, 2, 3, 4):
             tag = "r%d-%s-h%d-n%d" % (rep, aname, h, n)
             bound = "entry point %s, %s, haystack %d, needle %d, chars from the model domain (ASCII + 16 non-ASCII), DEFAULT config" % (aname, REPNAME[rep], h, n)
             dp = dict((p, tier) for p in decp)
-            dp["C10"] = tier
+            if rep != 3:
+                dp["C10"] = tier
             UC("c01-uni-dec-" + tag, "uni", "uni_decision::<%d,%d,%d,%d,0>()" % (rep, alg, h, n), dp, "bounded", UNI_FNS[alg],
                "%s_match (%s) succeeds exactly when the documented relation holds over the characters" % (aname, REPNAME[rep]),
                unwind=max(h + 3, 7), bound=bound + ("; fuzzy_match_optimal replaced by its contract" if heavy else ""), cost=5 if heavy else 4, timeout=1500, stubs=CHAR_STUBS + (OPT_STUB if heavy else []),
